@@ -1031,9 +1031,17 @@ class XPathEval(Comp):
             # stale hash entries after xpath_pi_text(); modelled for a predicate directly on the text() step, other
             # consumers that call set_sort() (string(), name(), union ...) are attributed by the syntax
             return ("xpath-assert-text-hash", detail)
-        if "( cmp = ( step ( ctx ) 0 child ( name" in f[6] and ("-sibling" in f[6]):
-            # a key predicate whose value walks the sibling axes: lyxp_atomize() sees no dependency on the list instance
-            # and the value is evaluated once (not modelled as coded: needs the schema)
+        ctx_name = None
+        if "( cmp = ( step ( ctx ) 0 child ( name" in f[6] and int(f[4]) >= 0:
+            nd = parse_dump(f[3])
+            if int(f[4]) < len(nd) and nd[int(f[4])].kind in "lt":
+                ctx_name = hexs(nd[int(f[4])].name)
+        if "( cmp = ( step ( ctx ) 0 child ( name" in f[6] and \
+                ("-sibling" in f[6] or (ctx_name and (" %s )" % ctx_name) in f[6])):
+            # a key predicate whose value walks the sibling axes, or reaches the (leaf-)list the CONTEXT node is an
+            # instance of (eval_name_test_try_compile_predicate_append exempts the schema node of the current node from
+            # the multi-instance rule): lyxp_atomize() sees no dependency and the value is evaluated once, as the string
+            # of the first node (not modelled as coded: needs the schema)
             return ("xpath-fastpath-context-dependent-rhs", detail)
         if " attribute " in f[6] and ("m" in got.split(":")[-1].split(",") or got.startswith(("F:", "B:", "S:"))):
             # the only metadata in these trees is libyang's internal yang:lyds_tree (sorted (leaf-)lists)
